@@ -117,24 +117,33 @@ Definition has_bindb (w : list out) : bool := existsb is_bind (reqs w).
 
 (* what one connection can have done to the stream-management state held on the Client:
    (A) nothing is held afterwards (and the count is zero, or no id was held before either and
-   the count is untouched); (B) a fresh session: the id is one this server handed out
+   the count is untouched) - and then, unless nothing was held before, the client had got as
+   far as sending <resume/> or a bind request: a failure before that (refused dial, TLS,
+   authentication, features that never arrive) never costs the state; (B) a fresh session: the id is one this server handed out
    in an <enabled/> of this very connection, the count starts at zero, a bind was made and
    the negotiation succeeded; (C) the state held before is kept (id, count, queue): then no
-   bind request was made, and if a <resume/> was sent at all the negotiation succeeded and
-   the server's reply to it was <resumed/> with exactly the id held. *)
+   bind request was made, and if a <resume/> was sent at all, either the negotiation succeeded
+   and the server's reply to it was <resumed/> with exactly the id held, or the connection
+   went away before any reply arrived (then the negotiation failed). *)
 Definition issued (s : list sitem) (id : str) : Prop := exists r, In (SEnabled id r) s.
 Definition confirmed (s : list sitem) (id : str) : Prop := exists pre rest, s = pre ++ SResumed id :: rest.
-Definition sm_dropped (p p1 : persist) : Prop :=
-  p_sm_id p1 = [] /\ (p_inbound p1 = 0 \/ (p_sm_id p = [] /\ p_inbound p1 = p_inbound p)).
+(* the connection went away where the answer to <resume/> was awaited: the script ends (or the
+   connection is closed) right there - at this step, or, seen from a whole connection, right
+   after a features element *)
+Definition unanswered (s : list sitem) : Prop :=
+  conn_lost s = true \/ exists pre f rest, s = pre ++ SFeatures f :: rest /\ conn_lost rest = true.
+Definition sm_dropped (p : persist) (w : list out) (p1 : persist) : Prop :=
+  p_sm_id p1 = [] /\ (p_inbound p1 = 0 \/ (p_sm_id p = [] /\ p_inbound p1 = p_inbound p)) /\
+  ((has_resume w \/ has_bindb w = true) \/ (p_sm_id p = [] /\ p_inbound p1 = p_inbound p)).
 Definition sm_fresh (s : list sitem) (w : list out) (r : result) (p1 : persist) : Prop :=
   issued s (p_sm_id p1) /\ p_inbound p1 = 0 /\ p_has_queue p1 = true /\ r = Ok /\ has_bindb w = true /\
   has_enable w.
 Definition sm_kept (p : persist) (s : list sitem) (w : list out) (r : result) (p1 : persist) : Prop :=
   p_sm_id p1 = p_sm_id p /\ p_inbound p1 = p_inbound p /\ p_has_queue p1 = p_has_queue p /\
   has_bindb w = false /\
-  (has_resume w -> r = Ok /\ confirmed s (p_sm_id p)).
+  (has_resume w -> (r = Ok /\ confirmed s (p_sm_id p)) \/ (r <> Ok /\ unanswered s)).
 Definition sm_outcome (p : persist) (s : list sitem) (w : list out) (r : result) (p1 : persist) : Prop :=
-  sm_dropped p p1 \/ sm_fresh s w r p1 \/ sm_kept p s w r p1.
+  sm_dropped p w p1 \/ sm_fresh s w r p1 \/ sm_kept p s w r p1.
 
 Fixpoint hist_ok (p : persist) (cs : list conn) (rs : list (list out * result * persist)) : Prop :=
   match cs, rs with
@@ -148,9 +157,12 @@ Fixpoint hist_ok (p : persist) (cs : list conn) (rs : list (list out * result * 
       (r = Ok -> has_enable w -> p_inbound p2 = k_traffic c) /\
       (* a new session without stream management: no id is held, nothing will be reported to anybody *)
       (r = Ok -> has_bindb w = true -> ~ has_enable w -> p_sm_id p2 = []) /\
-      (* a failed attempt (refused dial, TLS, authentication, ... whatever the step): the id and the count
-         are both as before, or nothing is held any more *)
-      (r <> Ok -> (p_sm_id p2 = p_sm_id p /\ p_inbound p2 = p_inbound p) \/ (p_sm_id p2 = [] /\ p_inbound p2 = 0)) /\
+      (* a failed attempt: the id and the count are both as before - always when the failure came before the
+         client had sent <resume/> or a bind request (refused dial, features that never arrive, TLS,
+         authentication, stream restart: the transient failures) - or nothing is held any more, which takes a
+         <resume/> or a bind request on this connection *)
+      (r <> Ok -> (p_sm_id p2 = p_sm_id p /\ p_inbound p2 = p_inbound p) \/
+                  (p_sm_id p2 = [] /\ p_inbound p2 = 0 /\ (has_resume w \/ has_bindb w = true))) /\
       hist_ok p2 cs' rs'
   | _, _ => False
   end.
